@@ -272,11 +272,30 @@ def run(case, rec):
         return
     found = list(call.result)
     # the grid is shared input: analysing once more on the same grid object must give the same answer
-    again = common.monitored(rec, "locate_droplets", droplets.locate_droplets, field)
-    if rec.check(again.ok, "no-exception", f"a second locate_droplets call on the same field raised {again.exc!r}"):
+    # ... also when options are given that cannot matter for this image: the rendered field only takes the values
+    # 0 and 1 (thresholds 0.3, 0.7, 'auto' and 'extrema' give the same binary image as the default 0.5) and a
+    # minimal radius below the smallest droplet removes nothing
+    import zlib
+
+    sel = zlib.crc32(repr(case["droplets"]).encode()) % 6
+    extra = {}
+    if sel in (1, 4):
+        from droplets.tools import spherical
+
+        r_small = min(float(spherical.radius_from_volume(t["V"], dim)) for t in truth)
+        extra["minimal_radius"] = r_small * (0.35 + 0.1 * (zlib.crc32(repr(spec).encode()) % 6))
+    if sel in (2, 4) and float(np.min(field.data)) == 0.0 and float(np.max(field.data)) == 1.0:
+        extra["threshold"] = ["auto", "extrema", 0.3, 0.7][zlib.crc32(repr(spec["shape"]).encode()) % 4]
+    if sel == 5:
+        extra["refine"] = False
+        extra["num_processes"] = 2
+    rec.count("second_analysis_options:" + ",".join(sorted(extra)) if extra else "second_analysis_options:none")
+    again = common.monitored(rec, "locate_droplets", droplets.locate_droplets, field, **extra)
+    if rec.check(again.ok, "no-exception", f"a second locate_droplets call on the same field ({extra}) raised {again.exc!r}"):
         same = len(again.result) == len(found) and all(common.droplet_bytes(a_) == common.droplet_bytes(b_) for a_, b_ in zip(again.result, found))
         rec.check(same, "repeatable",
-                  f"a second analysis of the same field on the same grid object gives a different result: "
+                  f"a second analysis of the same field on the same grid object (options {extra}, none of which can matter "
+                  f"for this image) gives a different result: "
                   f"{[(list(map(float, d.position)), d.radius) for d in again.result]} vs {[(list(map(float, d.position)), d.radius) for d in found]}")
 
     aniso = float(h.max() / h.min()) > 1.05 if len(h) > 1 else False
